@@ -17,7 +17,8 @@ RULE = ("Real client and server application stacks on a fault-injecting virtual 
         "unchanged, more-follows is false on exactly the last segment, segment 0 carries the proposed window, no segment lies "
         "beyond last-acknowledged + window of the most recent segment-ack; (repair) with exactly one fault the transaction "
         "still ends in the ack with the exact payload. Non-trivial: >= 2 segments in at least one direction. Distinct by "
-        "(configuration, fault plan).")
+        "(configuration, fault plan)."
+        " Also: single faults around the sequence-number wrap of a 263-segment transfer (windows 1/2/4, both directions); single faults with one configured retry.")
 ASSUMPTIONS = [
     "segment boundaries follow the library's slicing rule (payload / max-APDU); whether the resulting frames respect the peer's limits is C12",
     "the window rule counts every segment-ack offered to the LAN, even one the fault plan then drops (lenient towards the sender)",
